@@ -215,7 +215,7 @@ def DeltaR(eta1, phi1, eta2, phi2):
 
 
 def base_env():
-    env = {"Range": Range, "isNonnull": isNonnull, "DeltaR": DeltaR, "abs": abs, "pow": pow}
+    env = {"_vm_mod": _vm_mod, "Range": Range, "isNonnull": isNonnull, "DeltaR": DeltaR, "abs": abs, "pow": pow}
     for n in dir(math):
         if not n.startswith("_") and callable(getattr(math, n)):
             env[n] = getattr(math, n)
@@ -244,10 +244,32 @@ def to_cols(elem):
 _compiled = {}
 
 
+class _ModGuard(__import__("ast").NodeTransformer):
+    "a % b is only defined by the property for non-negative operands: route it through a guard"
+
+    def visit_BinOp(self, n):
+        import ast
+        self.generic_visit(n)
+        if isinstance(n.op, ast.Mod):
+            return ast.Call(func=ast.Name("_vm_mod", ast.Load()), args=[n.left, n.right], keywords=[])
+        return n
+
+
+def _vm_mod(a, b):
+    if isinstance(a, (int, float)) and isinstance(b, (int, float)) and (a < 0 or b < 0):
+        raise Unsupported("% with a negative operand")
+    return a % b
+
+
 def compile_query(text: str):
     c = _compiled.get(text)
     if c is None:
-        c = compile(text, "<query>", "eval")
+        import ast
+        if "%" in text:
+            tree = ast.fix_missing_locations(_ModGuard().visit(ast.parse(text, mode="eval")))
+            c = compile(tree, "<query>", "eval")
+        else:
+            c = compile(text, "<query>", "eval")
         if len(_compiled) > 20000:
             _compiled.clear()
         _compiled[text] = c
